@@ -756,6 +756,7 @@ func (c *Ctx) opcodeType() *types.Named {
 //     built-in uses it next, and the recovered panic comes back as the error "panic: ..."), dereferenced, or
 //     used as a receiver;
 //   - a func field: called.
+//
 // Comparisons with nil and plain stores are not uses.
 func ruleZeroVM(c *Ctx, r *Report) {
 	const rule = "R-ZERO-VM"
